@@ -22,7 +22,9 @@
 //     returned local variable (its literal plus later v.Field = expr assignments);
 //   - client store writes: the key expression f(...) / pkg.f(...) / []byte(CONST), a local variable (everything
 //     assigned to it), or a PARAMETER of the enclosing function (then the corresponding argument at every call site in
-//     the package, transitively: a setKV(store, key, val) helper is transparent);
+//     the package, transitively: a setKV(store, key, val) helper is transparent), or a FIELD v.f of a struct type of
+//     the package (then every expression stored into that field: T{f: expr}, w.f = expr; a key bundle built by a
+//     constructor and used by its methods is transparent);
 //   - ExportMetadata: calls that pass the store; unexported helpers of the package are followed with the store and
 //     constant arguments substituted, `for _, p := range []T{A, B}` binds p to each constant; exported functions
 //     and functions of other packages are leaves (callee, constant or "").
@@ -536,6 +538,13 @@ func keyHeads(e ast.Expr, fd *ast.FuncDecl, files []*ast.File, depth int) []stri
 				}
 			}
 		}
+	case *ast.SelectorExpr:
+		// v.f: a key held in a field of a struct value of a type declared in this package (v a receiver, parameter,
+		// local variable or a constructor call): the heads of every expression stored into field f of such a struct —
+		// composite literals T{f: expr} / positional, and assignments w.f = expr — each resolved in its own function
+		if hs := fieldHeads(x, fd, files, depth); len(hs) > 0 {
+			return hs
+		}
 	case *ast.Ident:
 		var out []string
 		if pi := paramIndex(fd, x.Name); pi >= 0 {
@@ -595,6 +604,130 @@ func keyHeads(e ast.Expr, fd *ast.FuncDecl, files []*ast.File, depth int) []stri
 	}
 	die("%s: %s: key expression of a client store write outside the supported subset", fset.Position(e.Pos()), fd.Name.Name)
 	return nil
+}
+
+// struct types declared in the package: name -> field names in order
+func pkgStructs(files []*ast.File) map[string][]string {
+	out := map[string][]string{}
+	for _, f := range files {
+		for _, d := range f.Decls {
+			gd, ok := d.(*ast.GenDecl)
+			if !ok || gd.Tok != token.TYPE {
+				continue
+			}
+			for _, sp := range gd.Specs {
+				ts, ok := sp.(*ast.TypeSpec)
+				if !ok {
+					continue
+				}
+				st, ok := ts.Type.(*ast.StructType)
+				if !ok {
+					continue
+				}
+				var fs []string
+				for _, fl := range st.Fields.List {
+					if len(fl.Names) == 0 {
+						fs = append(fs, typeName(fl.Type))
+					}
+					for _, n := range fl.Names {
+						fs = append(fs, n.Name)
+					}
+				}
+				out[ts.Name.Name] = fs
+			}
+		}
+	}
+	return out
+}
+
+// the declared type name of an identifier that is the receiver or a parameter of fd ("" otherwise)
+func declaredType(fd *ast.FuncDecl, name string) string {
+	look := func(fl *ast.FieldList) string {
+		if fl == nil {
+			return ""
+		}
+		for _, p := range fl.List {
+			for _, n := range p.Names {
+				if n.Name == name {
+					return typeName(p.Type)
+				}
+			}
+		}
+		return ""
+	}
+	if t := look(fd.Recv); t != "" {
+		return t
+	}
+	return look(fd.Type.Params)
+}
+
+func fieldHeads(sel *ast.SelectorExpr, fd *ast.FuncDecl, files []*ast.File, depth int) []string {
+	field := sel.Sel.Name
+	structs := pkgStructs(files)
+	hasField := func(t string) int {
+		for i, f := range structs[t] {
+			if f == field {
+				return i
+			}
+		}
+		return -1
+	}
+	cands := map[string]bool{}
+	if id, ok := sel.X.(*ast.Ident); ok {
+		if t := declaredType(fd, id.Name); t != "" && hasField(t) >= 0 {
+			cands[t] = true
+		}
+	}
+	if len(cands) == 0 { // a local variable / a constructor call: every struct type of the package with that field
+		for t := range structs {
+			if hasField(t) >= 0 {
+				cands[t] = true
+			}
+		}
+	}
+	if len(cands) == 0 {
+		return nil
+	}
+	var out []string
+	for _, f := range files {
+		for _, d := range f.Decls {
+			owner, ok := d.(*ast.FuncDecl)
+			if !ok || owner.Body == nil {
+				continue
+			}
+			ast.Inspect(owner.Body, func(n ast.Node) bool {
+				switch x := n.(type) {
+				case *ast.CompositeLit:
+					t := typeName(x.Type)
+					if !cands[t] {
+						return true
+					}
+					for i, el := range x.Elts {
+						if kv, ok := el.(*ast.KeyValueExpr); ok {
+							if k, ok := kv.Key.(*ast.Ident); ok && k.Name == field {
+								out = append(out, keyHeads(kv.Value, owner, files, depth+1)...)
+							}
+						} else if i == hasField(t) {
+							out = append(out, keyHeads(el, owner, files, depth+1)...)
+						}
+					}
+				case *ast.AssignStmt:
+					for i, l := range x.Lhs {
+						if se, ok := l.(*ast.SelectorExpr); ok && se.Sel.Name == field && len(x.Rhs) == len(x.Lhs) {
+							if id, ok := se.X.(*ast.Ident); ok {
+								if t := declaredType(owner, id.Name); t != "" && !cands[t] {
+									continue
+								}
+							}
+							out = append(out, keyHeads(x.Rhs[i], owner, files, depth+1)...)
+						}
+					}
+				}
+				return true
+			})
+		}
+	}
+	return out
 }
 
 func storeWrites(files []*ast.File) []string {
